@@ -915,6 +915,19 @@ class Project:
       for k in n.keywords:
         if k.arg in ('traversal_fn', 'fn'):
           cand = k.value
+        elif k.arg is None and isinstance(k.value, ast.Name):
+          # **kwargs built beforehand: dict(traversal_fn=f, ...) / {...}
+          kv = local_value(k.value.id)
+          if isinstance(kv, ast.Call) and isinstance(
+              kv.func, ast.Name) and kv.func.id == 'dict':
+            for k2 in kv.keywords:
+              if k2.arg in ('traversal_fn', 'fn'):
+                cand = k2.value
+          elif isinstance(kv, ast.Dict):
+            for dk, dv in zip(kv.keys, kv.values):
+              if isinstance(dk, ast.Constant) and dk.value in (
+                  'traversal_fn', 'fn'):
+                cand = dv
       if cand is None:
         continue
       r = resolve_cb(cand)
